@@ -62,6 +62,29 @@ def generate():
                     return res[0][0][0][0]
                 for kind, fn, cls in (('slow', slow, slow_cls), ('fast', fast, fast_cls)):
                     tree = sx.paths(fn, assume=[var('a0') > 0] if is4 else ())     # code4 asserts alpha0 > 0 at construction
+                    # numeric self-check of the translation: the decision tree, evaluated at random points (incl. the breakpoints), must
+                    # reproduce what the class returns on the same numbers with the real numpy backend and the real `math` module
+                    if had_math: mod.math = old_math
+                    mgr.this.state['default'] = saved_default; mgr.this.state['current'] = saved_current
+                    try:
+                        def sampler(rng):
+                            nom = rng.uniform(5, 100)
+                            env = {'nom': nom, 'up': nom * rng.uniform(0.6, 1.5), 'dn': nom * rng.uniform(0.6, 1.5), 'a0': rng.choice([1.0, 0.5, 2.0]) if is4 else 1.0}
+                            env['a'] = rng.choice([rng.uniform(-3, 3), env['a0'], -env['a0'], 0.0, 1.0, -1.0])
+                            return env
+
+                        def reference(env, kind=kind, cls=cls):
+                            if kind == 'slow':
+                                o = cls.__new__(cls)
+                                if is4: o.alpha0 = env['a0']
+                                return getattr(o, meth)(env['dn'], env['nom'], env['up'], env['a'])
+                            h = [[[[env['dn']], [env['nom']], [env['up']]]]]
+                            it = cls(h, subscribe=False, alpha0=env['a0']) if is4 else cls(h, subscribe=False)
+                            return np.asarray(it(np.asarray([[env['a']]])))
+                        sx.selfcheck(f'{modname}/{kind}', ('leaf', [tree]) if tree[0] == 'leaf' else wrap_leaves(tree), None, sampler, reference)
+                    finally:
+                        mgr.this.state['default'] = (sb, saved_default[1]); mgr.this.state['current'] = (sb, saved_current[1])
+                        if had_math: mod.math = sx.SymMath
                     digest = hashlib.sha256(inspect.getsource(cls).encode()).hexdigest()[:16]
                     out.append(f'/-- `{modname}.py::{cls.__name__}` (source sha256 {digest}…), one cell -/')
                     out.append(f'def {kind}_{modname} {sig} : K :=\n{sx.lean_tree(tree)}\n')
@@ -72,6 +95,10 @@ def generate():
         mgr.this.state['current'] = saved_current
     out.append('end\nend Pyhf.Gen\n')
     return '\n'.join(out)
+
+
+def wrap_leaves(t):
+    return ('leaf', [t[1]]) if t[0] == 'leaf' else ('ite', t[1], wrap_leaves(t[2]), wrap_leaves(t[3]))
 
 
 def regenerate(check_only=False):
